@@ -36,6 +36,7 @@ func features() sqlgen.Features {
 	f.AlterQualified = hx.Allowed("c03.alter_qualified_table")
 	f.MySQL = hx.Allowed("c03.mysql_forms")
 	f.Partitions = hx.Allowed("c03.partitions")
+	f.QuotedOddNames, f.QuotedDotName, f.QuotedDigitsName = true, true, true
 	return f
 }
 
